@@ -22,6 +22,8 @@ VERIF = os.path.dirname(os.path.dirname(os.path.abspath(__file__)))
 
 TIER_QUERY_MS = {'quick': 30000, 'thorough': 300000}
 PATH_FEAS_MS = 4000
+CONFIRM_PER_KEY = 2          # path models per claim group that are replayed on the real code as confirmations
+CONFIRM_PER_OB = {'quick': 12, 'thorough': 40}
 
 
 class Ob:
@@ -134,6 +136,8 @@ class Ctx:
         self.scn = None
         self.scn_exprs = {}
         self.scn_dyn = None
+        self.confirm_count = {}
+        self.has_builder = False
 
     def interp(self, feas_timeout_ms=1500):
         I = engine.interp_from_parsed(self.parsed, feas_timeout_ms)
@@ -248,9 +252,31 @@ class Ctx:
                         base[label] = str(pm.eval(v, model_completion=True))
                     except Exception:   # noqa
                         pass
+        # confirmation input: the model of the whole path condition is a concrete input on which SMIR says the claims
+        # hold (when they are decided unsat); it is replayed on the real code through the module's oracle (encoder validation)
+        confirm = None
+        if kind == 'require' and (self.scn is not None or self.has_builder) and pf == 'sat' and pm is not None:
+            keys = tuple(k for _, _, k in sels)
+            cnt = self.confirm_count.get(keys, 0)
+            if cnt < CONFIRM_PER_KEY:
+                self.confirm_count[keys] = cnt + 1
+                try:
+                    full = {}
+                    for label, v in (model_vars or {}).items():
+                        full[label] = v if isinstance(v, (int, bool)) else str(pm.eval(v, model_completion=True))
+                    holds = []
+                    for f, _, _ in claims:
+                        if f is True:
+                            continue
+                        holds.append(False if f is False else z3.is_true(pm.eval(f, model_completion=True)))
+                    a_ok = all(z3.is_true(pm.eval(a, model_completion=True)) for a in assume if not isinstance(a, bool))
+                    if a_ok:
+                        confirm = {'model': full, 'holds': holds}
+                except Exception:   # noqa
+                    confirm = None
         self.nq += 1
         self.ob.queries.append({'kind': kind, 'text': s.to_smt2(), 'sels': sels, 'mv': mvnames, 'base': base, 'scn': self.scn, 'expect': expect, 'scn_extra': scn_extra,
-                                'sliced': pf == 'sat', 'size': len(kept), 'full': len(pc)})
+                                'sliced': pf == 'sat', 'size': len(kept), 'full': len(pc), 'confirm': confirm})
 
     def set_scenario(self, templ, scenario, dynamic=None):
         """register the replay scenario template of the current world (templ: tojson.Templ that built it).
@@ -447,6 +473,8 @@ def _worker(args):
         mod = importlib.import_module('checks.' + modname)
         fn = dict(mod.OBLIGATIONS)[obname]
         ctx = Ctx(ob, _PARSED, tier, seed)
+        rp = getattr(mod, 'REPLAY', {})
+        ctx.has_builder = bool(rp.get('*') or rp.get(obname))
         fn(ctx)
         for I in ctx.interps:
             ctx.absorb(I)
@@ -581,6 +609,22 @@ def run_check(prop_id, modname, tier, seed, jobs=None, only=None):
                 r['gaps'].append('solver process failed on a query: %s' % (a or {}).get('error', 'no answer'))
                 continue
             r['solver_s'] += a.get('t', 0.0)
+            if q['kind'] != 'witness' and q.get('scn') is None and 'sels' in q:
+                ns = r.setdefault('no_scenario_keys', [])
+                for _, _, k_ in q['sels']:
+                    if k_ not in ns:
+                        ns.append(k_)
+            cf = q.get('confirm')
+            if cf and len(a['claims']) == len(cf['holds']):
+                cr = r.setdefault('confirm_replays', [])
+                seen = r.setdefault('confirm_keys', {})
+                for c, h in zip(a['claims'], cf['holds']):
+                    if c['status'] == 'unsat' and h and seen.get(c['key'], 0) < CONFIRM_PER_KEY and len(cr) < CONFIRM_PER_OB[tier]:
+                        seen[c['key']] = seen.get(c['key'], 0) + 1
+                        ent = {'claim': c['claim'], 'key': c['key'], 'site': c['key'], 'model': cf['model'], 'strings': r['strings']}
+                        if q.get('scn') is not None:
+                            ent['scenario_t'] = with_extra(r['scenarios'][q['scn']], q.get('scn_extra'))
+                        cr.append(ent)
             for c in a['claims']:
                 if c['status'] == 'sat':
                     r['sat'] += 1
